@@ -471,6 +471,17 @@ func (in *Interp) ensureInit(p *ssa.Package) {
 		in.runInitTolerant(initFn)
 	}
 	in.pkgInit[p] = 2
+	if p.Pkg.Path() == "os" && in.fs != nil {
+		// the process's standard streams: three distinct open files of the FS
+		// model (the real initialiser builds them from descriptors 0..2)
+		for i, name := range []string{"Stdin", "Stdout", "Stderr"} {
+			if g, ok := p.Members[name].(*ssa.Global); ok {
+				ino := in.fs.newInode()
+				of := &openFile{ino: ino, name: "/dev/" + strings.ToLower(name), rd: i == 0, wr: i != 0, app: i != 0}
+				in.globals[g].V = in.fs.newFileValue(of)
+			}
+		}
+	}
 }
 
 // runInitTolerant executes the synthesized package initialiser in program
